@@ -33,6 +33,38 @@ def gen(tier, rng):
                     scns.append(igz.scenario(len(scns), api, list(st), wrap=mode, calls=calls, tail_ai=ta, tail_ao=to, cap=400000, mem=(k + j) % 3, prefill=j % 3,
                                              meta={"plan": "+".join(plan), "cpu": cpu}))
             k += 1
+    # large streams of short-code blocks (multi-symbol lookup entries) around the decoder's 64 KiB staging boundary: (a) the first call's input
+    # ends at every byte near the place where the output reaches 65536 (input runs out inside a symbol exactly when the staging buffer fills),
+    # (b) whole input with the first output buffer ending at, just before and just after a block end beyond 64 KiB
+    for rep in range(1 if tier == "quick" else 4):
+        st, ends = defgen.packed_stream(rng, total=70000 if tier == "quick" else 140000)
+        st = bytes(st); n = len(st)
+        d = zlib.decompressobj(-15); outlen = 0; off = None
+        for i in range(n):
+            outlen += len(d.decompress(st[i:i + 1]))
+            if outlen >= 65536: off = i; break
+        j = 0
+        def big(calls, fam):
+            nonlocal j
+            scns.append(igz.scenario(len(scns), "inflate", list(st), wrap=0, calls=calls, tail_ai=n, tail_ao=1 << 17, cap=4000, mem=j % 3, prefill=j % 3,
+                                     meta={"plan": "packed-big:" + fam, "cpu": inflfam.KERNEL_CPUS[j % 3], "salt": j % 7})); j += 1
+        scns.append(igz.scenario(len(scns), "inflate_stateless", list(st), wrap=0, calls=[[n, 1 << 18, 0, 0]], meta={"plan": "packed-big:one-shot", "cpu": "host", "salt": 0}))
+        if off is not None:
+            for cut in range(max(1, off - 40), min(n, off + 6)):
+                big([[cut, 1 << 17, 0, 0], [n - cut, 1 << 17, 0, 0]], "input-cut-at-staging-boundary")
+        for e in [e for e in ends if e > 65536 + 300][: (14 if tier == "quick" else 60)]:
+            for x in (e - 2, e - 1, e, e + 1):
+                big([[n, x, 0, 0], [0, 1 << 17, 0, 0]], "output-ends-at-block-end")
+        # (c) the pinned 'literal + far match' pairs beyond 64 KiB: the output buffer ends right at the literal and the input ends inside the match
+        for pin in (66999, 68001):
+            d2 = zlib.decompressobj(-15); o2 = 0; off2 = None
+            for i in range(n):
+                o2 += len(d2.decompress(st[i:i + 1]))
+                if o2 > pin: off2 = i; break
+            if off2 is None: continue
+            for cut in range(off2 - 6, off2 + 3):
+                for x in (pin - 1, pin, pin + 1):
+                    big([[cut, x, 0, 0], [n - cut, 1 << 17, 0, 0], [0, 1 << 17, 0, 0]], "output-and-input-end-inside-literal+match")
     return scns
 
 def run(tier, replay=None):
